@@ -17,7 +17,7 @@ r = run(['timeout', '120', py, demo]); clean_demo = r.returncode
 a = run(['git', 'apply', diff]); assert a.returncode == 0, a.stderr
 try:
     t = run(['timeout', '800', py, '-m', 'pytest', '-q', '-p', 'no:cacheprovider', 'tests'])
-    tail = t.stdout.strip().splitlines()[-1] if t.stdout.strip() else t.stderr[-200:]
+    tail = (f'pytest exit {t.returncode}: ' + (t.stdout.strip().splitlines()[-1] if t.stdout.strip() else t.stderr[-200:]))
     d = run(['timeout', '120', py, demo]); seeded_demo = d.returncode
     checks = {}
     for i in range(1, 21):
@@ -32,7 +32,7 @@ caught = {p: v for p, v in checks.items() if v[0] != 0}
 print(f'{prop}-{k}: tests: {tail} | demo clean rc={clean_demo} seeded rc={seeded_demo} | own check rc={checks[prop][0]} | caught by {sorted(caught)}')
 for p, v in caught.items():
     print(f'   {p} rc={v[0]} {v[1]}')
-valid = clean_demo == 0 and seeded_demo != 0 and ('passed' in tail and 'failed' not in tail)
+valid = clean_demo == 0 and seeded_demo != 0 and t.returncode == 0
 out = f'/verif/seeded/{prop}-{k}'
 os.makedirs(out, exist_ok=True)
 shutil.copy(diff, f'{out}/patch.diff'); shutil.copy(demo, f'{out}/demo.py')
